@@ -2,7 +2,10 @@
 
 package rhpke
 
-import "math/big"
+import (
+	"crypto/ecdh"
+	"math/big"
+)
 
 // Private big-integer copy of the RFC 7748 Montgomery ladder (X25519 and
 // X448). Deliberately slow and obvious; shares no code with circl.
@@ -75,7 +78,30 @@ func (c *montCurve) decodeU(u []byte) *big.Int {
 }
 
 // x is the function X25519 / X448 of RFC 7748: scalar k, u-coordinate u.
+// X25519 goes through crypto/ecdh (which refuses the all-zero output that only
+// low-order inputs produce; RFC 7748 defines that output as zero); X448 uses
+// the big-integer ladder. The self-test compares the ladder with crypto/ecdh.
 func (c *montCurve) x(k, u []byte) []byte {
+	if len(k) != c.size || len(u) != c.size {
+		panic("rhpke: mont: wrong input size")
+	}
+	if c.size == 32 {
+		sk, err1 := ecdh.X25519().NewPrivateKey(k)
+		pk, err2 := ecdh.X25519().NewPublicKey(u)
+		if err1 != nil || err2 != nil {
+			panic("rhpke: crypto/ecdh refused a 32-byte X25519 input")
+		}
+		out, err := sk.ECDH(pk)
+		if err != nil {
+			return make([]byte, 32)
+		}
+		return out
+	}
+	return c.ladder(k, u)
+}
+
+// ladder is the Montgomery ladder of RFC 7748 section 5 with math/big.
+func (c *montCurve) ladder(k, u []byte) []byte {
 	if len(k) != c.size || len(u) != c.size {
 		panic("rhpke: mont: wrong input size")
 	}
